@@ -190,6 +190,8 @@ pub struct XEnc {
     /// members of a shared formula repeat the master's text inside their <f t="shared" si=..> element (ECMA-376 18.3.1.40 allows it;
     /// the member's formula is still the master's, moved)
     pub shared_members_carry_text: bool,
+    /// sheet parts one folder deeper (xl/worksheets/data/sheetN.xml)
+    pub sheet_subfolder: bool,
     /// table parts named xl/tbl/tN.xml instead of xl/tables/tableN.xml
     pub odd_table_part_names: bool,
     /// write the attributes of a cell element as t, s, r instead of r, s, t, and those of a shared f element as si, ref, t
@@ -205,7 +207,7 @@ impl Default for XEnc {
     fn default() -> Self {
         XEnc {
             prefix: false, row_r: RMode::Explicit, cell_r: RMode::Explicit, dim: DimMode::Exact, target: TargetMode::Relative,
-            upper_parts: false, upper_root: false, apply_nf: 0, method: Method::Deflated, explicit_t_n: false, empty_rows: false, reorder_members: false, rid_shuffle: false, indent: false, rels_target_first: false, rows_never_r: false, split_text_nodes: false, comments: false, extras: false, bool_words: false, sst_count_refs: false, numfmt_code_first: false, shared_members_carry_text: false, cell_attrs_reversed: false, odd_table_part_names: false,
+            upper_parts: false, upper_root: false, apply_nf: 0, method: Method::Deflated, explicit_t_n: false, empty_rows: false, reorder_members: false, rid_shuffle: false, indent: false, rels_target_first: false, rows_never_r: false, split_text_nodes: false, comments: false, extras: false, bool_words: false, sst_count_refs: false, numfmt_code_first: false, shared_members_carry_text: false, cell_attrs_reversed: false, odd_table_part_names: false, sheet_subfolder: false,
         }
     }
 }
@@ -497,8 +499,10 @@ pub fn table_xml(t: &XTable, id: usize) -> String {
     if t.extras && t.header_rows != Some(0) { o.push_str(&format!("<autoFilter ref=\"{}\"/>", t.rf)); }
     o.push_str(&format!("<tableColumns count=\"{}\">", t.columns.len()));
     for (i, c) in t.columns.iter().enumerate() {
-        if t.extras && i + 1 == t.columns.len() { o.push_str(&format!("<tableColumn id=\"{}\" name=\"{}\" dataDxfId=\"0\"><calculatedColumnFormula>1+1</calculatedColumnFormula></tableColumn>", i + 1, esc(c))); }
-        else { o.push_str(&format!("<tableColumn id=\"{}\" name=\"{}\"/>", i + 1, esc(c))); }
+        // column ids are identifiers, not positions: after a column was inserted in the middle they are no longer ascending
+        let id = if t.extras && t.columns.len() >= 2 { if i == 1 { t.columns.len() + 3 } else { i + 1 } } else { i + 1 };
+        if t.extras && i + 1 == t.columns.len() { o.push_str(&format!("<tableColumn id=\"{}\" name=\"{}\" dataDxfId=\"0\"><calculatedColumnFormula>1+1</calculatedColumnFormula></tableColumn>", id, esc(c))); }
+        else { o.push_str(&format!("<tableColumn id=\"{}\" name=\"{}\"/>", id, esc(c))); }
     }
     o.push_str("</tableColumns>");
     if t.extras { o.push_str("<tableStyleInfo name=\"TableStyleMedium2\" showFirstColumn=\"0\" showLastColumn=\"0\" showRowStripes=\"1\" showColumnStripes=\"0\"/><extLst><ext uri=\"{504A1905-F514-4f6f-8877-14C23A59335A}\" xmlns:x14=\"http://schemas.microsoft.com/office/spreadsheetml/2009/9/main\"><x14:table altText=\"alt\" altTextSummary=\"summary &amp; more\"/></ext></extLst>"); }
@@ -516,7 +520,9 @@ pub fn parts(b: &XBook, enc: &XEnc) -> Vec<(String, Vec<u8>)> {
     let mut sheet_parts = vec![];
     let mut sheet_rels: Vec<String> = vec![];
     for (i, s) in b.sheets.iter().enumerate() {
-        let dir = sheet_dir(s.kind);
+        // sheet parts may live in a sub-folder of their usual folder (part names are free)
+        let dir_owned = if enc.sheet_subfolder { format!("{}/data", sheet_dir(s.kind)) } else { sheet_dir(s.kind).to_string() };
+        let dir = dir_owned.as_str();
         let target = match enc.target { TargetMode::Relative => format!("{dir}/sheet{}.xml", i + 1), TargetMode::AbsoluteXl => format!("/xl/{dir}/sheet{}.xml", i + 1) };
         let rid = if enc.rid_shuffle { b.sheets.len() - i } else { i + 1 };
         let rel = format!("<Relationship Id=\"rId{}\" Type=\"{}\" Target=\"{}\"/>", rid, sheet_rel_type(s.kind), target);
@@ -530,7 +536,7 @@ pub fn parts(b: &XBook, enc: &XEnc) -> Vec<(String, Vec<u8>)> {
                 let rid = format!("rId{}", rids.len() + 1);
                 // part names are free (OPC): Excel uses xl/tables/tableN.xml, other writers their own folder and file names
                 let part = if enc.odd_table_part_names { format!("tbl/t{table_no}.xml") } else { format!("tables/table{table_no}.xml") };
-                srel.push_str(&format!("<Relationship Id=\"{rid}\" Type=\"http://schemas.openxmlformats.org/officeDocument/2006/relationships/table\" Target=\"../{part}\"/>"));
+                srel.push_str(&format!("<Relationship Id=\"{rid}\" Type=\"http://schemas.openxmlformats.org/officeDocument/2006/relationships/table\" Target=\"{}../{part}\"/>", if enc.sheet_subfolder { "../" } else { "" }));
                 tail.push((format!("xl/{part}"), table_xml(t, table_no)));
                 rids.push(rid);
             }
